@@ -7,7 +7,7 @@
    The expression- and equation-level round trips (printed text parses, prints identically and
    evaluates as the ORIGINAL tree denotes in Jp/Expr.v) are decided by correspondence. *)
 From Coq Require Import Init.Byte ZArith List Bool.
-Require Import Ojg.Base.Bytes Ojg.Json.Writer Ojg.Jp.Str Ojg.Jp.StrU Ojg.Jp.PathText Ojg.Jp.PathRT.
+Require Import Ojg.Base.Bytes Ojg.Json.Writer Ojg.Jp.Str Ojg.Jp.StrU Ojg.Jp.PathText Ojg.Jp.PathRT Ojg.Jp.Expr Ojg.Jp.PathEval.
 Import ListNotations.
 
 Theorem C14_string_roundtrip : forall s term k,
@@ -60,3 +60,14 @@ Example C14_normal_path_example :
 Proof. vm_compute. reflexivity. Qed.
 
 Print Assumptions C14_normal_path_round_trip.
+
+
+(* the property's own words for these paths: the text of x parses to an expression that evaluates
+   identically on all data (get_spec: the evaluation model the suites compare with Expr.Get) and
+   prints identically (unless a union has one member: its text is that of a child / index) *)
+Theorem C14_path_text_faithful : forall fs d, Forall frag_ok fs ->
+  exists fs', parse_path (print_path fs) = Some fs' /\
+    get_spec (FRoot :: map to_frag fs') d = get_spec (FRoot :: map to_frag fs) d /\
+    (Forall no_single fs -> print_path fs' = print_path fs).
+Proof. exact path_text_faithful. Qed.
+Print Assumptions C14_path_text_faithful.
